@@ -42,6 +42,7 @@ CONSTANTS
   ExactLams,   \* set of integers: parameter values of the exact pairs
   Shifts,      \* set of rationals: BoxCoxShift shifts
   RangeVals,   \* set of rationals and NaN tokens: inputs of the range table
+  InputShapes, \* how an input is handed over: "scalar" | "zero_d" | "list" | "array1" | "array2"
   ForceVals,   \* integers the force-moments input vectors are made of
   ForceLens,   \* lengths of these vectors
   ForceMeans,  \* requested means (rationals)
@@ -181,15 +182,23 @@ ClassesMonotone ==
      is a constant.                                                                      *)
 
 TrendAt(kind, x) == CASE kind = "none" -> 0 [] kind = "const" -> 4 [] kind = "call" -> 12 * x   \* 1.0 ; 3x
-MeanAt(kind, x)  == CASE kind = "const" -> WrapMean [] kind = "call" -> WrapMean + 4 * x        \* 2 ; 2 + x
 
+(* every optional number of the binary wrapper is "default" (not given), "zero" (given as 0:
+   a falsy but legitimate value) or "val" (another given value); the field mean is a non-zero
+   constant, the constant 0 (configured, falsy) or position dependent *)
+ArgSpecs == {"default", "zero", "val"}
 WrapCfgs ==
-  {cf \in [meanKind : {"const", "call"}, trendKind : {"none", "const", "call"},
+  {cf \in [meanKind : {"const", "zero", "call"}, trendKind : {"none", "const", "call"},
            process : BOOLEAN, keepMean : BOOLEAN,
-           method : {"binary_default", "binary_given", "discrete_arithmetic", "discrete_user",
-                     "discrete_equal"}] :
+           method : {"binary", "discrete_arithmetic", "discrete_user", "discrete_equal"},
+           divide : ArgSpecs \cup {"-"}, lower : ArgSpecs \cup {"-"}, upper : ArgSpecs \cup {"-"}] :
       \* a position dependent mean can only be handed over as the number 0
-      cf.meanKind = "call" => (cf.process /\ ~cf.keepMean)}
+      /\ cf.meanKind = "call" => (cf.process /\ ~cf.keepMean)
+      /\ IF cf.method = "binary" THEN "-" \notin {cf.divide, cf.lower, cf.upper}
+         ELSE cf.divide = "-" /\ cf.lower = "-" /\ cf.upper = "-"}
+
+MeanAt(kind, x)  == CASE kind = "const" -> WrapMean [] kind = "zero" -> 0 [] kind = "call" -> WrapMean + 4 * x
+Pick(spec, dflt, val) == CASE spec = "default" -> dflt [] spec = "zero" -> 0 [] spec = "val" -> val
 
 WrapCase(cf) ==
   LET n        == Len(WrapPos)
@@ -198,17 +207,16 @@ WrapCase(cf) ==
       tAt(i)   == IF cf.process THEN TrendAt(cf.trendKind, WrapPos[i]) ELSE 0
       \* the stored field is chosen such that the pre-processed data are WrapData
       stored   == [i \in 1..n |-> WrapData[i] + mAt(i) + tAt(i)]
-      meanArg  == IF usesMean THEN 0 ELSE WrapMean
-      normal   == cf.trendKind = "none" /\ cf.meanKind = "const"
-      needs    == cf.method \in {"binary_default", "discrete_equal"}
+      meanArg  == IF usesMean THEN 0 ELSE MeanAt(cf.meanKind, 0)
+      normal   == cf.trendKind = "none" /\ cf.meanKind \in {"const", "zero"}
+      needs    == (cf.method = "binary" /\ cf.divide = "default") \/ cf.method = "discrete_equal"
       rejected == ~cf.process /\ needs /\ ~normal
-      vals     == CASE cf.method = "binary_default" -> <<meanArg - WrapSqrtSill, meanArg + WrapSqrtSill>>
-                    [] cf.method = "binary_given"   -> <<12, -4>>
+      vals     == CASE cf.method = "binary" -> <<Pick(cf.lower, meanArg - WrapSqrtSill, 12),
+                                                 Pick(cf.upper, meanArg + WrapSqrtSill, -4)>>
                     [] cf.method = "discrete_arithmetic" -> <<8, -4, 2>>
                     [] cf.method = "discrete_user"  -> <<8, -4, 8>>
                     [] cf.method = "discrete_equal" -> <<12, 2>>
-      thr      == CASE cf.method = "binary_default" -> <<meanArg>>
-                    [] cf.method = "binary_given"   -> <<2>>
+      thr      == CASE cf.method = "binary" -> <<Pick(cf.divide, meanArg, 2)>>
                     [] cf.method = "discrete_arithmetic" -> ArithmeticThresholds(vals)
                     [] cf.method = "discrete_user"  -> <<-2, 5>>
                     [] cf.method = "discrete_equal" -> <<meanArg>>
@@ -355,7 +363,7 @@ OutsideImage(norm, lam, y) ==
 
 Classify(norm, lam, s, dir, v) ==
   IF IsNaN(v) THEN "NaN"
-  ELSE IF dir = "normalize"
+  ELSE IF dir \in {"normalize", "derivative"}      \* the derivative lives on the input range
        THEN IF InOpen(v, NormRange(norm, s)) THEN "Valid" ELSE "OutOfRange"
        ELSE IF ~InOpen(v, DenormRange(norm, lam)) THEN "OutOfRange"
             ELSE IF OutsideImage(norm, lam, v) THEN "Open" ELSE "Valid"
@@ -365,10 +373,13 @@ RangeCfgs ==
   \cup {<<n, l, RI(0)>> : n \in {"BoxCox", "YeoJohnson", "Modulus", "Manly"}, l \in Lambdas}
   \cup {<<"BoxCoxShift", l, s>> : l \in Lambdas, s \in Shifts}
 
+(* The class of a value does not depend on how it is handed over: as a python number, a 0-d
+   array, inside a list, a 1-d or a 2-d array (array_like input, element-wise semantics). *)
 InitRange ==
   c \in {[sec |-> "range", norm |-> cf[1], lam |-> cf[2], shift |-> cf[3], dir |-> d, v |-> v,
-          cls |-> Classify(cf[1], cf[2], cf[3], d, v)]
-           : cf \in RangeCfgs, d \in {"normalize", "denormalize"}, v \in RangeVals}
+          shape |-> sh, cls |-> Classify(cf[1], cf[2], cf[3], d, v)]
+           : cf \in RangeCfgs, d \in {"normalize", "denormalize", "derivative"}, v \in RangeVals,
+             sh \in InputShapes}
 
 (* design check tying the two tables together: the exact image of a valid input is a valid
    input of the inverse direction (so the round trip is defined on the whole valid range) *)
